@@ -578,6 +578,18 @@ func stateRules(c *Ctx) {
 				bySize := lim.contains(func(x *Term) bool {
 					return x.Op == "call" && (strings.HasSuffix(x.Name, ".Size") || strings.HasSuffix(x.Name, "FileInfo).Size") || strings.HasSuffix(x.Name, "Size]"))
 				}) || strings.Contains(lim.String(), ".Size")
+				// ... or from the length of the compressed bytes the inflater reads
+				src.walk(func(x *Term) {
+					if x.Op == "call" && strings.Contains(x.Name, "NewReader") && (strings.HasPrefix(x.Name, "compress/") || strings.Contains(x.Name, "gzip.") || strings.Contains(x.Name, "zlib.") || strings.Contains(x.Name, "flate.")) {
+						for _, a := range x.Args {
+							a.walk(func(y *Term) {
+								if (y.Op == "call" || y.Op == "extract") && len(y.String()) > 12 && strings.Contains(lim.String(), "call[builtin:len]("+y.String()+")") {
+									bySize = true
+								}
+							})
+						}
+					}
+				})
 				if inflates && bySize {
 					c.bad("STATE", "truncating-read:"+short1, i.Pos(), fmt.Sprintf("%s reads the inflated stream through %s with a limit worked out from the size of the compressed file (%s): how far a text inflates is not bounded by a ratio, so a well-formed file that compresses better than that is cut off without an error", short1, n, short(lim.String())))
 				} else {
